@@ -30,18 +30,18 @@ Qed.
 Definition in_range (p : tparams) (q : probe) : Prop := tp_first p <= p_ttl q <= tp_last p.
 
 (** ---- parallel *)
-Lemma prun_inv : forall fuel p T pend cancel rs acc r,
+Lemma prun_inv : forall fuel p D T pend cancel rs acc r,
   rs = fold_left write (rev acc) (init (tp_last p)) ->
   Forall (in_range p) acc ->
-  T < pdeadline p + tp_poll p -> 0 < tp_poll p ->
-  prun fuel p T pend cancel rs acc = TDone r ->
+  T < D + tp_poll p -> 0 < tp_poll p ->
+  prun fuel p D T pend cancel rs acc = TDone r ->
   tr_slots r = clip (tp_first p) (merge_all (tp_last p) (tr_accepted r))
   /\ Forall (in_range p) (tr_accepted r)
-  /\ pdeadline p < tr_elapsed r < pdeadline p + tp_poll p.
+  /\ D < tr_elapsed r < D + tp_poll p.
 Proof.
-  induction fuel as [|fuel IH]; intros p T pend cancel rs acc r Hrs Hacc HT Hpoll H; cbn [prun] in H; [discriminate|].
-  destruct (T =? pdeadline p) eqn:E1; [discriminate|].
-  destruct (pdeadline p <? T) eqn:E2.
+  induction fuel as [|fuel IH]; intros p D T pend cancel rs acc r Hrs Hacc HT Hpoll H; cbn [prun] in H; [discriminate|].
+  destruct (T =? D) eqn:E1; [discriminate|].
+  destruct (D <? T) eqn:E2.
   - injection H as <-. cbn. apply Z.ltb_lt in E2. split; [unfold merge_all; rewrite Hrs; reflexivity|].
     split; [apply Forall_rev; exact Hacc|lia].
   - apply Z.ltb_ge in E2. apply Z.eqb_neq in E1.
@@ -76,6 +76,29 @@ Proof.
   intros H. apply prun_inv in H; auto.
   - destruct H as [H1 [H2 H3]]. repeat split; auto. unfold parallel_bound, pdeadline in *. lia.
   - unfold pdeadline, count. nia.
+Qed.
+
+(** prompt cancellation (C08): with the caller's context cancelled at [c] >= 0, the receiver
+    leaves less than one poll interval after min(deadline, c) *)
+Theorem parallel_run_cancel_spec p script c r :
+  0 <= c -> parallel_run_cancelled p script c = TDone r ->
+  Z.min (pdeadline p) c < tr_elapsed r < Z.min (pdeadline p) c + tp_poll p
+  /\ tr_elapsed r < c + tp_poll p.
+Proof.
+  unfold parallel_run_cancelled. destruct (params_ok p) eqn:P; [|discriminate]. cbn [negb].
+  apply params_ok_facts in P. destruct P as [P1 [P2 [P3 [P4 P5]]]].
+  intros Hc H. apply prun_inv in H; auto.
+  - destruct H as [_ [_ H3]]. split; [exact H3|]. lia.
+  - assert (0 < pdeadline p) by (unfold pdeadline, count; nia). lia.
+Qed.
+
+(** the sender notices at its next check: at most one send delay after the cancellation *)
+Theorem sender_exit_bound p c : 0 <= c -> 0 <= tp_delay p -> 0 <= count p -> sender_exit p c <= c + tp_delay p.
+Proof.
+  intros Hc Hd Hn. unfold sender_exit. destruct (tp_delay p =? 0) eqn:E; [lia|]. apply Z.eqb_neq in E.
+  assert (tp_delay p * ((c + tp_delay p - 1) / tp_delay p) <= c + tp_delay p - 1).
+  { apply Z.mul_div_le. lia. }
+  lia.
 Qed.
 
 (** ---- serial *)
